@@ -173,7 +173,7 @@ def norm_tokens(s):
 
 def find_item(src, kind, name):
     src = strip_cfg_test(src)
-    kw = {"enum": "enum", "struct": "struct", "const": "const", "fn": "fn", "type": "type"}[kind]
+    kw = {"enum": "enum", "struct": "struct", "const": "const", "fn": "fn", "type": "type", "trait": "trait"}[kind]
     hits = []
     for m in re.finditer(r"(?:pub(?:\([^)]*\))?\s+)?%s\s+%s\b" % (kw, re.escape(name)), src):
         ls = src.rfind("\n", 0, m.start()) + 1
